@@ -49,7 +49,8 @@ Proof.
       unfold static_link; simpl. apply forall_set_nth; [exact Hl|exact Ht].
     + destruct (listens_input t && _); [|discriminate]. inversion H; subst.
       apply static_stub_input; assumption.
-  - inversion H; subst. unfold deliver_sink. destruct (zlen (cdata c) =? 0); exact Hl.
+  - destruct (l_wr_ready l <=? l_now l); [|discriminate].
+    inversion H; subst. unfold deliver_sink. destruct (zlen (cdata c) =? 0); exact Hl.
 Qed.
 
 Lemma static_close_downstream l j : static_link l -> static_link (close_downstream l j).
